@@ -21,13 +21,29 @@ def main(run: Run):
             continue
         run.functions["amaranth_soc.memory." + fv.qualname] = f"proved ({fv.paths} paths, {len(fv.obs)} obligations generated in {time.time() - t:.1f}s)"
         obs += fv.obs
+    # the second layer of the representation invariant (alignment rule, window geometry) that the dense-window steps rest on:
+    # its inductiveness obligations (MemoryMap.__init__ / add_resource / add_window) are re-discharged here, not assumed
+    from contracts import memory_c02
+    for f in (memory_c02.verify_init, memory_c02.verify_add_resource, memory_c02.verify_add_window):
+        t = time.time()
+        try:
+            fv = f()
+        except Unsupported as e:
+            run.functions["amaranth_soc.memory." + f.__name__.replace("verify_", "MemoryMap.") + " [alignment layer]"] = f"unsupported: {e}"
+            run.undecided.append(f"{f.__name__}: unsupported construct: {e}")
+            continue
+        mine = [o for o in fv.obs if "wf-align" in o.clause]
+        run.functions["amaranth_soc.memory." + fv.qualname + " [alignment layer of the invariant]"] = \
+            f"proved ({len(mine)} obligations generated in {time.time() - t:.1f}s)"
+        obs += mine
     run.assumptions += BASE_ASSUMPTIONS_L1
     run.assumptions += [
         "trees only: recursion on a child uses the same contract (measure: height); a map reachable from itself is outside the domain",
-        "ASSUMED (not proved): for a dense window of ratio > 1 the child is a leaf map whose every range start and size is a "
-        "multiple of the ratio (consequence of add_window's alignment check and add_resource's alignment rule; proving the "
-        "alignment invariant made z3 diverge on divisibility over symbolic powers of two) - monitored at run time in the thorough tier",
-        "ASSUMED tree well-formedness per window: the window's range spans at least 2**child.addr_width / ratio addresses (add_window post-condition, C02)",
+        "REQUIRES on the tree (the property's stated domain): dense windows of ratio > 1 sit over leaf maps",
+        "divisibility steps (a multiple of 2**e is a multiple of 2**al for al <= e; x % 2**a == 0 and 2**a % t == 0 give x % t == 0; "
+        "the r & (r-1) power-of-two test) are GROUND INSTANCES of lemmas proved in Lean (lemmas/Align.lean), connected to the SMT "
+        "side through the defined predicates AlignedTo / DividesPow2 / fdiv whose definitions are unfolded at ground terms only",
+        "AWc/DWc/ALc(id) denote the geometry of the map with that identity (read-only properties set once in __init__)",
         "names/paths are opaque symbols: only their provenance (which dict entry / which child path) is tracked",
         "dict.values() / generator / for-loop semantics of CPython (each element visited once, in order)"]
     run.trusted_base += ["pyvc VC generator (vf/pyvc/engine.py)", "z3 5.1 / cvc5 1.0", "contracts of _RangeMap.get/items proved in C02"]
@@ -37,12 +53,17 @@ def main(run: Run):
     for o in obs[:6]:
         run.sample(f"{o.fn}::{o.clause}::{o.label}")
     from ..lean_check import status as _lean_status
-    run.extra["lean_lemmas"] = {"files": _lean_status(), "used": "Pow2.lean: dense_window_translation"}
+    from contracts import memory_model as _mm
+    run.extra["lean_lemmas"] = {"files": _lean_status(), "used": "Pow2.lean: dense_window_translation; Align.lean: int_aligned_coarser, int_mod_trans, pow2_test_dvd",
+                                "ground_instances": {k: _mm.LEMMA_INSTANCES.count(k) for k in sorted(set(_mm.LEMMA_INSTANCES))}}
     for _f, _st in run.extra["lean_lemmas"]["files"].items():
         if _st != "accepted":
             run.assumptions.append(f"Lean lemma file {_f} is '{_st}': the SMT axioms it backs are TRUSTED in this run")
     return run.finish(
         explanation="_translate, ResourceInfo.__init__, decode_address, all_resources and find_resource are verified against "
                     "contracts over the abstract map view; recursive calls use the function's own contract on the child; the "
-                    "coherence of the three lookups is the induction step proved as arithmetic lemmas over those contracts.",
+                    "coherence of the three lookups is the induction step proved as arithmetic lemmas over those contracts.  The "
+                    "alignment facts the dense-window steps need come from the second layer of the representation invariant "
+                    "(ranges are multiples of 2**alignment; a window's ratio divides 2**alignment of the window's map), whose "
+                    "inductiveness obligations for __init__/add_resource/add_window are discharged in the same run.",
         checker_cmd="./check C03 --tier " + run.tier)
